@@ -198,6 +198,9 @@ where
     #[pin]
     inner: InnerCheckoutConnecting<T, P, B>,
     connection: Option<P::Connection>,
+    /// This checkout registered its connection attempt as the in-flight attempt
+    /// other checkouts for the same key wait on.
+    owns_connecting: bool,
     meta: ConnectorMeta,
     #[cfg(debug_assertions)]
     id: CheckoutId,
@@ -240,6 +243,7 @@ where
                     waiter: Waiting::NoPool,
                     inner: InnerCheckoutConnecting::ConnectingDelayed(connector.take().unwrap()),
                     connection: None,
+                    owns_connecting: *this.owns_connecting,
                     meta: ConnectorMeta::new(), // New meta to avoid holding spans in the spawned task
                     #[cfg(debug_assertions)]
                     id: *this.id,
@@ -277,6 +281,7 @@ where
             waiter: Waiting::NoPool,
             inner: InnerCheckoutConnecting::Connecting(connector),
             connection: None,
+            owns_connecting: false,
             meta: ConnectorMeta::new(),
             #[cfg(debug_assertions)]
             id,
@@ -289,6 +294,7 @@ where
         waiter: Receiver<Pooled<P::Connection, B>>,
         connect: Option<Connector<T, P, B>>,
         connection: Option<P::Connection>,
+        owns_connecting: bool,
         config: &Config,
     ) -> Self {
         #[cfg(debug_assertions)]
@@ -306,6 +312,7 @@ where
                 waiter: Waiting::Idle(waiter),
                 inner: InnerCheckoutConnecting::Connected,
                 connection,
+                owns_connecting,
                 meta,
                 #[cfg(debug_assertions)]
                 id,
@@ -325,6 +332,7 @@ where
                 waiter: Waiting::Idle(waiter),
                 inner,
                 connection,
+                owns_connecting,
                 meta,
                 #[cfg(debug_assertions)]
                 id,
@@ -337,6 +345,7 @@ where
                 waiter: Waiting::Connecting(waiter),
                 inner: InnerCheckoutConnecting::Waiting,
                 connection,
+                owns_connecting,
                 meta,
                 #[cfg(debug_assertions)]
                 id,
@@ -521,9 +530,12 @@ where
                     tracing::error!(error=%err, "error during delayed drop");
                 }
             });
-        } else if let Some(mut pool) = self.pool.lock() {
-            // Connection is only cancled when no delayed drop occurs.
-            pool.cancel_connection(self.token);
+        } else if self.owns_connecting {
+            // The in-flight marker is only cleared when no delayed drop occurs, and only by
+            // the checkout which set it.
+            if let Some(mut pool) = self.pool.lock() {
+                pool.cancel_connection(self.token);
+            }
         }
     }
 }
